@@ -5,7 +5,6 @@
 use super::*;
 use crate::xvalue::{ErrV, Viol, XResult};
 
-const N: usize = 6;
 
 #[derive(Clone, Copy, PartialEq, Eq)]
 struct El {
@@ -40,6 +39,17 @@ fn is_heap(data: &[El]) -> bool {
 #[kani::proof]
 #[kani::unwind(8)]
 fn heap_push_pop_b6() {
+    heap_push_pop::<6>()
+}
+
+/// thorough tier: the same contract with at most 8 pushes
+#[kani::proof]
+#[kani::unwind(10)]
+fn heap_push_pop_b8() {
+    heap_push_pop::<8>()
+}
+
+fn heap_push_pop<const N: usize>() {
     let n: usize = kani::any();
     kani::assume(n <= N);
     let fail_at: u32 = kani::any();
